@@ -68,12 +68,18 @@ Carry ==
          H(<<Op("open", "mixed", FALSE, "none", "none"), Op("open", "empty", FALSE, "none", "none")>>, "", ""),
          H(<<Op("symlink", "ok", FALSE, "none", "none"), Op("symlink", "empty", FALSE, "none", "none")>>, "", ""),
          H(<<Op("exec", "enoexec", FALSE, "ok", "none"), Op("exec", "fdexec", FALSE, "ok", "none")>>, "", "") }
+\* (h) two failures in a row on one environment: a flag set on one failure path must not survive into the
+\* next call (each failure class: before fork, before the sync, at the sync, after the sync)
+FailCore == { Op("exec", v, FALSE, "ok", "none") : v \in {"noent", "noentabs", "enoexec", "emptyargs"} }
+            \cup { Op("exec", "run", sa, "fail", "none") : sa \in BOOLEAN }
+            \cup { Op("exec", "enoexec", TRUE, "none", "none"), Op("exec", "sleep", FALSE, "ok", "pre") }
+FailPairs == { H(<<a, b>>, "", "") : a \in FailCore, b \in FailCore }
 \* (f) transport loss while a reply is pending (gate "stale"): a stale reply must never satisfy a later call
 Stale == { [ops |-> <<Op("exec", v, sa, "ok", "none")>> \o post, gate |-> "stale", delays |-> ""] :
             v \in {"run", "runslow"}, sa \in BOOLEAN,
             post \in { <<Ping, Ping, Ping, Ping>>, <<Run, Ping, Ping>>, <<Op("reset", "", FALSE, "none", "none"), Ping, RunA>>,
                        <<Op("open", "ok", FALSE, "none", "none"), Ping, Ping>> } }
-All == Singles \cup Pairs \cup Races \cup Rand \cup Loss \cup Stale \cup Carry
+All == Singles \cup Pairs \cup Races \cup Rand \cup Loss \cup Stale \cup Carry \cup FailPairs
 ASSUME ndJsonSerialize("histories.ndjson", SetToSeq(All))
 ASSUME PrintT(<<"histories", Cardinality(Singles), Cardinality(Pairs), Cardinality(Races), Cardinality(Rand), Cardinality(Loss)>>)
 VARIABLE x
